@@ -4,8 +4,11 @@
     non-trivial inputs. *)
 From Coq Require Import List ZArith NArith Bool Arith String.
 Import ListNotations.
-From DD Require Import Base.PyStr Base.Value Diff.Tree Diff.DiffModel Path.PathModel
-  Filter.FilterModel Filter.FilterProofs Filter.FilterExclude Filter.FilterThreshold Filter.FilterInclude.
+From DD Require Import Base.PyStr Base.Value Base.ValueFacts Diff.Tree Diff.DiffModel Path.PathModel Path.PathProofs
+  Filter.FilterModel Filter.FilterFacts Filter.FilterProofs Filter.FilterExclude Filter.FilterThreshold Filter.FilterInclude.
+
+Lemma existsb_map_compat {A B} (f : B -> bool) (g : A -> B) l : existsb f (map g l) = existsb (fun x => f (g x)) l.
+Proof. induction l as [|a l IH]; cbn; [reflexivity|]. rewrite IH. reflexivity. Qed.
 Local Open Scope string_scope.
 
 (* no oracle is consulted by the witnesses (no sets, no multi-line strings, no default-mode list except W3) *)
@@ -111,3 +114,30 @@ Lemma include_substring_sibling_refuted :
     [(KValue, [PKey (ks "a")])] /\
   related w5_Q [PKey (ks "a")] = false /\ related w5_Q [PKey (ks "xroot['a']")] = true.
 Proof. vm_compute. repeat split; reflexivity. Qed.
+
+(* ---- the guard idx_closed is met by a non-trivial predicate: one dictionary-key path ---- *)
+Example idx_closed_example : idx_closed (fun p => path_eqb p [PKey (ks "a")]).
+Proof.
+  intros p i _. unfold snoc. destruct p as [|k [|k' p]]; cbn [app path_eqb].
+  - reflexivity.
+  - rewrite andb_false_r. reflexivity.
+  - destruct (pkey_eqb k (PKey (ks "a"))); reflexivity.
+Qed.
+
+(* ---- literal exclusion of existing positions = equality of key sequences
+        (up to the identification of the int key i with the index i, which print alike) ---- *)
+Lemma excluded_literal (Q : list path) (p : path) :
+  path_ok p = true -> Forall (fun q => path_ok q = true) Q ->
+  excluded no_skip (map render Q) p = existsb (fun q => path_eqb (norm p) (norm q)) Q.
+Proof.
+  intros Hp HQ. unfold excluded. rewrite add_root_render. unfold skip_this. cbn [no_skip].
+  rewrite orb_false_r. unfold mem_str. rewrite existsb_map_compat.
+  induction HQ as [|q Q Hq _ IH]; cbn [existsb]; [reflexivity|]. rewrite IH. f_equal.
+  destruct (pystr_eqb (render p) (render q)) eqn:E.
+  - apply ValueFacts.pystr_eqb_eq in E. apply (PathProofs.render_inj p q Hp Hq) in E. rewrite E.
+    symmetry. apply FilterFacts.path_eqb_refl.
+  - destruct (path_eqb (norm p) (norm q)) eqn:N; [|reflexivity].
+    apply FilterFacts.path_eqb_eq in N.
+    assert (render p = render q) by (rewrite <- (PathProofs.render_norm p), <- (PathProofs.render_norm q), N; reflexivity).
+    rewrite H in E. rewrite ValueFacts.pystr_eqb_refl in E. discriminate E.
+Qed.
